@@ -132,9 +132,68 @@ def r2_rewrite(ctx):
     return r
 
 
+def r3_segments(ctx):
+    r = Rule("C14.R3", "rebuilding the path keeps every non-localised segment, in order",
+             "`preserving every other segment`: parameters, optional parameters and everything a wildcard captured must be copied to "
+             "the new URL; only static segments are replaced by the new locale's spelling", floor=8)
+    fn = ctx.ast.fn(F, "construct_path_segments")
+    if fn is None:
+        r.missing("construct_path_segments")
+        return r
+    m = find_first(fn.body, "Match")
+    want = {
+        "PathSegment::Unit": "continue",
+        "PathSegment::Param(_)": "{path_builder.pushseg;continue}",
+        "PathSegment::OptionalParam(_)ifoptionals.contains(&index)": "{path_builder.pushseg;continue}",
+        "PathSegment::OptionalParam(_)": "continue",
+        "PathSegment::Static(to_push)ifto_push.is_empty()": "continue",
+        "PathSegment::Static(to_push)": "{path_builder.pushto_push;continue}",
+        "PathSegment::Splat(_)": "{path_builder.pushseg;break}",
+    }
+    got = {}
+    order = []
+    for a in (m or {"arms": []})["arms"]:
+        k = flat(show_pat(a["pat"])) + ("if" + flat(show(a["guard"])) if a.get("guard") else "")
+        got[k] = flatp(show(a["body"]))
+        order.append(k)
+    for k, w in want.items():
+        if got.get(k) == w:
+            r.inst("construct_path_segments#" + k, w)
+        else:
+            r.viol("R3:construct_path_segments#" + k, "arm `%s` is `%s`, expected `%s`" % (k, got.get(k), w), file=fn.file, line=fn.line)
+    if order and (order.index("PathSegment::OptionalParam(_)ifoptionals.contains(&index)") > order.index("PathSegment::OptionalParam(_)") or order.index("PathSegment::Static(to_push)ifto_push.is_empty()") > order.index("PathSegment::Static(to_push)")):
+        r.viol("R3:construct_path_segments#arm-order", "a guarded arm comes after its catch-all", file=fn.file, line=fn.line)
+    t = flatp(show(fn.body))
+    if has(t, "letmutouter_seg_iter=segments.iter;") and has(t, "forsegin&mutouter_seg_iter{loop{") and t.endswith("forseginouter_seg_iter{path_builder.pushseg}}"):
+        r.inst("construct_path_segments#tail", "segments left after the route (or captured by a wildcard) are all appended: the main loop borrows the iterator, a final loop drains it")
+    else:
+        r.viol("R3:construct_path_segments#tail", "segments that the main loop did not consume (everything a wildcard captured after its first segment) are no longer appended", file=fn.file, line=fn.line)
+    fn = ctx.ast.fn(F, "localize_path")
+    t = flatp(show(fn.body)) if fn else ""
+    if has(t, "letpath_segments=path.split'/'.filter|s|!s.is_empty.collect::<Vec<_>>;") and has(t, "letnew_segments=&new_locale_segments[pos];construct_path_segments&path_segments,new_segments,path_builder,&optionals;"):
+        r.inst("localize_path", "all non-empty segments of the path, matched route index `pos` reused for the new locale")
+    else:
+        r.viol("R3:localize_path", "localize_path changed", file=F)
+    fn = ctx.ast.fn(F, "match_path_segments")
+    if fn is not None:
+        m = find_first(fn.body, "Match")
+        got = {}
+        for a in (m or {"arms": []})["arms"]:
+            got[flat(show_pat(a["pat"])) + ("if" + flat(show(a["guard"])) if a.get("guard") else "")] = flatp(show(a["body"]))
+        want = {"PathSegment::Unit": "continue", "PathSegment::Param(_)": "continue", "PathSegment::OptionalParam(to_match)if(to_match==seg)": "{optionals.insertindex;continue}",
+                "PathSegment::OptionalParam(_)": "continue", "PathSegment::Static(to_match)ifto_match.is_empty()": "continue", "PathSegment::Static(to_match)if(to_match==seg)": "continue",
+                "PathSegment::Static(_)": "returnNone", "PathSegment::Splat(_)": "returnSomeoptionals"}
+        bad = [k for k, w in want.items() if got.get(k) != w]
+        if bad:
+            r.viol("R3:match_path_segments", "route matching table changed for %s" % bad, file=fn.file, line=fn.line)
+        else:
+            r.inst("match_path_segments", "static segments compared with ==, parameters accept anything, wildcard accepts the rest")
+    return r
+
+
 def run(ctx):
     prog = ctx.mir("main")
-    return [r1_whole_segment(ctx, prog), r2_rewrite(ctx)]
+    return [r1_whole_segment(ctx, prog), r2_rewrite(ctx), r3_segments(ctx)]
 
 
 MANIFEST_ENTRY = {
